@@ -134,6 +134,16 @@ func NewUDPConn(config *AllocationConfig) *UDPConn {
 // see SetDeadline and SetReadDeadline.
 func (c *UDPConn) ReadFrom(p []byte) (n int, addr net.Addr, err error) {
 	for {
+		// A closed socket says so, whatever its deadline.
+		if c.isClosed() {
+			return 0, nil, &net.OpError{
+				Op:   "read",
+				Net:  c.LocalAddr().Network(),
+				Addr: c.LocalAddr(),
+				Err:  errClosed,
+			}
+		}
+
 		// The timer below fires only once: a deadline that has passed keeps
 		// failing reads until SetReadDeadline moves it.
 		if deadline := c.readDeadline.Load(); deadline != 0 && time.Now().UnixNano() >= deadline {
